@@ -347,12 +347,56 @@ def judge_self_assignment(owner, name):
     return None
 
 
-def judge_constructor(owner, name, value):
-    diffx = trees.build(BASE_TREE)
+# siblings that are equal to each other, or to a section nothing was set
+# on yet, followed by a different one
+DUP_TREE = {
+    'main': {},
+    'changes': [
+        {'attrs': {'meta': {'c': 1}},
+         'files': [{'meta': {'path': 'a'}}, {}, {'meta': {'path': 'a'}},
+                   {'meta': {'path': 'z'}}]},
+        {'attrs': {}, 'files': []},
+        {'attrs': {'meta': {'c': 1}}, 'files': []},
+        {'attrs': {'meta': {'c': 3}}, 'files': []},
+    ],
+    'via_constructor': True,
+}
+
+
+def judge_main_constructor(name, value):
+    """DiffX(name=value): the same typed check as assignment."""
+    ns = sut.load()
+    valid = is_valid(name, value)
+    what = 'DiffX(%s=%r)' % (name, value)
+
+    try:
+        diffx = ns.DiffX(**{name: copy.deepcopy(value)})
+    except Exception as e:
+        if valid is True:
+            return 'valid-value-refused', '%s raised %r' % (what, e)
+
+        return None
+
+    if valid is False:
+        return 'invalid-value-stored', '%s was accepted' % what
+
+    got = getattr(diffx, name)
+
+    if type(got) is not type(value) or got != value:
+        return 'stored-value-differs', '%s reads back as %r' % (what, got)
+
+    return None
+
+
+def judge_constructor(owner, name, value, base=None):
+    if owner == 'main':
+        return judge_main_constructor(name, value)
+
+    diffx = trees.build(base or BASE_TREE)
     before = trees.snapshot(diffx)
     valid = is_valid(name, value)
     factory = (diffx.add_change if owner == 'change'
-               else diffx.changes[1].add_file)
+               else diffx.changes[0 if base else 1].add_file)
     what = 'add_%s(%s=%r)' % (owner, name, value)
 
     try:
@@ -474,19 +518,23 @@ def run_enum_chunk(owner, st):
             st.violation(res[0], res[1],
                          {'owner': owner, 'name': name, 'via': 'self'})
 
-    if owner in ('change', 'file'):
-        # the same values through add_change()/add_file() keywords: a
-        # refused keyword must leave the tree without the new section
+    if owner in ('main', 'change', 'file'):
+        # the same values through DiffX() / add_change() / add_file()
+        # keywords: a refused keyword must leave the tree without the new
+        # section -- also where an equal sibling exists already
         for name in OWNERS[owner]:
             for value in catalogue(name):
-                res = judge_constructor(owner, name, value)
-                evals += 1
-                nontrivial += 1
+                for base in ((None,) if owner == 'main'
+                             else (None, DUP_TREE)):
+                    res = judge_constructor(owner, name, value, base)
+                    evals += 1
+                    nontrivial += 1
 
-                if res is not None:
-                    st.violation(res[0], res[1],
-                                 {'owner': owner, 'name': name,
-                                  'value': value, 'via': 'constructor'})
+                    if res is not None:
+                        st.violation(res[0], res[1],
+                                     {'owner': owner, 'name': name,
+                                      'value': value, 'via': 'constructor',
+                                      'dup': base is not None})
 
     if owner in ('main', 'change', 'file'):
         for kw in UNKNOWN_KW:
@@ -510,7 +558,8 @@ def run_enum_case(case, st):
     elif case.get('via') == 'self':
         res = judge_self_assignment(case['owner'], case['name'])
     elif case.get('via') == 'constructor':
-        res = judge_constructor(case['owner'], case['name'], case['value'])
+        res = judge_constructor(case['owner'], case['name'], case['value'],
+                                DUP_TREE if case.get('dup') else None)
     elif 'kw' in case:
         res = judge_unknown_kw(case['owner'], case['kw'])
     else:
